@@ -240,3 +240,10 @@ Definition skel_diagonal_fixed (is_bool : bool) (s : list Z) (offset dim1 dim2 :
          ("Min", []); ("Max", [[0]]); ("Add", [[diag_start offset]]); ("Slice", [[diag_start offset]; [r - 2]])]
      ++ (if is_bool then [("Cast", [[9]])] else []))%list
   end.
+
+(* proposed_fixes/ready/C08_16: a 0-d tensor with size 0: Slice(Unsqueeze(self, [0]), [0], [0]) *)
+Definition aten_unfold_shape_v (zf : bool) (s : list Z) (dimension size step : Z) : option (list Z) :=
+  if zf && (zlen s =? 0) && (size =? 0) then obind (unsqueeze_axes s [0]) (fun s1 => slice_shape s1 0 0 0)
+  else aten_unfold_shape s dimension size step.
+Definition skel_unfold_v (zf : bool) (s : list Z) (dimension size step : Z) : skel :=
+  if zf && (zlen s =? 0) && (size =? 0) then [("Unsqueeze", [[0]]); ("Slice", [[0]; [0]])] else skel_unfold s dimension size step.
